@@ -30,6 +30,8 @@ InitObs(P) ==
     fresh |-> {},           \* tasks created by the segment that is running now
     prio  |-> EmptyFn,      \* batch -> <<base, n, tb>> reported in the current selection round
     prov  |-> EmptyFn,      \* lazy future -> number of provider runs
+    aband |-> {},           \* tasks given up by a runaway-recursion reset (their computation ended with RuntimeError)
+    ovf   |-> FALSE,        \* a synchronous call has just failed with the runaway-recursion RuntimeError (scheduler reset)
     nflush |-> 0,           \* scheduler flushes of the current outermost call
     ncall |-> 0 ]
 
@@ -155,14 +157,14 @@ Step(S, e) ==
             all == LeafSeq(e.s)
             once(f) == Cardinality({i \in 1..Len(all) : all[i] = f}) = 1
             ord == IF isYield THEN SelectSeq(OrderedLeafSeq(e.s), LAMBDA f : f \in S.fresh /\ once(f)) ELSE <<>>
-            S1 == [S EXCEPT !.run = IF S.run # <<>> THEN Front(@) ELSE @,
+            S1 == [S EXCEPT !.run = IF S.run # <<>> THEN Front(@) ELSE @, !.ovf = FALSE,
                             !.ts[e.t].st = IF isYield THEN "waiting" ELSE "ending",
                             !.ts[e.t].ys = IF isYield THEN e.s ELSE Val("N", 0, <<>>),
                             !.ts[e.t].catch = IF isYield THEN seg.term.catch ELSE FALSE,
                             !.ts[e.t].ord = ord,
                             !.fresh = {}]
         IN [S |-> S1,
-            bad |-> IfBad(e.a = e.t, "C08.active") \cup
+            bad |-> IfBad(~S.ovf => e.a = e.t, "C08.active") \cup
                     IfBad(S.run # <<>> /\ Last(S.run) = e.t /\ S.ts[e.t].seg = e.k, "H.segend") \cup
                     CtxRunClauses(S, e.t)]
 
@@ -307,10 +309,12 @@ Step(S, e) ==
         [S |-> [S EXCEPT !.wait = Append(@, e.a), !.sync = Append(@, <<e.t, e.a>>)], bad |-> {}]
 
     [] e.e = "SyncEnd" ->
-        LET S1 == [S EXCEPT !.wait = IF @ # <<>> THEN Front(@) ELSE @, !.sync = IF @ # <<>> THEN Front(@) ELSE @] IN
+        LET S1 == [S EXCEPT !.wait = IF @ # <<>> THEN Front(@) ELSE @, !.sync = IF @ # <<>> THEN Front(@) ELSE @,
+                            !.ovf = (e.v = VX(80000)),
+                            !.aband = IF e.v = VX(80000) THEN @ \cup {t \in Reach(S, e.a) \cap Tasks(S) : ~FutDone(S, t)} ELSE @] IN
         [S |-> S1,
-         bad |-> IfBad(e.b = e.t, "C08.active") \cup
-                 IfBad(FutDone(S, e.a) /\ S.fut[e.a].v = e.v /\ (IsX(e.v) => S.fut[e.a].u = e.u), "C01.sync") \cup
+         bad |-> IfBad(e.v # VX(80000) => e.b = e.t, "C08.active") \cup        \* (after the runaway-recursion reset nothing is active)
+                 IfBad(e.v # VX(80000) => (FutDone(S, e.a) /\ S.fut[e.a].v = e.v /\ (IsX(e.v) => S.fut[e.a].u = e.u)), "C01.sync") \cup
                  CtxRunClauses(S1, e.t)]
 
     [] e.e = "CallEnd" ->
@@ -318,15 +322,16 @@ Step(S, e) ==
             outer == Len(S.wait) = 1
             reached == Reach(S, root)
             rootDone == FutDone(S, root)
-            S1 == [S EXCEPT !.wait = IF @ # <<>> THEN Front(@) ELSE @]
+            S1 == [S EXCEPT !.wait = IF @ # <<>> THEN Front(@) ELSE @,
+                            !.aband = IF e.v = VX(80000) THEN @ \cup {t \in Tasks(S) : ~FutDone(S, t)} ELSE @]
         IN [S |-> S1,
             bad |-> IfBad(e.a = 0, "C08.active") \cup
                     IfBad(e.k = 0, "C08.clean") \cup
                     IfBad(\A i \in 1..Len(e.xs) : e.xs[i] = 0, "C07.restore") \cup
-                    IfBad(rootDone /\ S.fut[root].v = e.v, "C01.conv") \cup
+                    IfBad(e.v # VX(80000) => (rootDone /\ S.fut[root].v = e.v), "C01.conv") \cup
                     IfBad(rootDone /\ IsX(e.v) => S.fut[root].u = e.u, "C02.prop") \cup
                     (IF S.ref # <<>> THEN IfBad(e.v = S.ref[root], "C01.ret") ELSE {}) \cup
-                    IfBad((NoFaultyCtx(P) /\ ~HasCtxType(P, "nonasync") /\ e.v # VX(80000)) => \A t \in Tasks(S) : S.ts[t].seg > 0 => FutDone(S, t), "C03.term") \cup
+                    IfBad((NoFaultyCtx(P) /\ ~HasCtxType(P, "nonasync") /\ e.v # VX(80000)) => \A t \in Tasks(S) \ S.aband : S.ts[t].seg > 0 => FutDone(S, t), "C03.term") \cup
                     IfBad(\A b \in DOMAIN S.bat : S.bat[b].nbefore = S.bat[b].nafter, "C05.events") \cup
                     (IF YieldOnly(P) /\ TreeShaped(P) /\ SingleKind(P) /\ S.ref # <<>> /\ S.ncall = 1 /\ P.kinds[1].flush # "spawn"
                      THEN IfBad(S.nflush = CriticalPath(P, root), "C04.count") ELSE {}) \cup
